@@ -323,6 +323,15 @@ def translate_apiflow(ctx) -> None:
     rebound = sorted({t.id for n in ast.walk(tree) for t in (n.targets if isinstance(n, ast.Assign) else [])
                       if isinstance(t, ast.Name) and t.id in API_FUNCS}
                      | {n.name for n in tree.body if isinstance(n, ast.FunctionDef) and n.name in API_FUNCS})
+    # the decorator around every API function, statement by statement (docstrings dropped)
+    import copy
+
+    wrapper = copy.deepcopy(api["_reissue_warnings"])
+    for node in ast.walk(wrapper):
+        if isinstance(node, (ast.FunctionDef, ast.AsyncFunctionDef)) and node.body and isinstance(node.body[0], ast.Expr) \
+                and isinstance(getattr(node.body[0], "value", None), ast.Constant) and isinstance(node.body[0].value.value, str):
+            node.body = node.body[1:] or [ast.Pass()]
+    out.append(f"def reissueBody : List String := {_ls(ast.unparse(wrapper).splitlines())}\n")
     out.append(f"def cliImports : List String := {_ls(sorted(imports))}\n")
     out.append(f"def cliRebound : List String := {_ls(rebound)}\n")
     out.append("end Iodata.Gen.ApiFlow\n")
@@ -354,6 +363,65 @@ def translate_registry(ctx) -> None:
            "  fns : List (String × List (String × List String))", "  deriving Repr, DecidableEq", "",
            "def registry : List Entry := [", ",\n".join(rows), "]", "", "end Iodata.Gen.ApiRegistry", ""]
     ctx.gen_write("ApiRegistry", "\n".join(txt))
+
+
+def _always_raises(stmts) -> bool:
+    """Every path through the statement list ends in `raise` (conservative: unknown shapes count as False)."""
+    if not stmts:
+        return False
+    last = stmts[-1]
+    if isinstance(last, ast.Raise):
+        return True
+    if isinstance(last, ast.If):
+        return bool(last.orelse) and _always_raises(last.body) and _always_raises(last.orelse)
+    if isinstance(last, (ast.With, ast.AsyncWith)):
+        return _always_raises(last.body)
+    if isinstance(last, ast.Try):
+        return (_always_raises(last.finalbody) or
+                (_always_raises(last.body) and all(_always_raises(h.body) for h in last.handlers)))
+    return False
+
+
+def translate_handlers(ctx) -> None:
+    """T1: Gen/Handlers.lean — every exception handler (`except`, `contextlib.suppress`) and every local change of
+    numpy's error mode (`np.errstate`, `np.seterr`) in the package outside the tests."""
+    rows = []
+    for p in sorted((engine.REPO / "iodata").rglob("*.py")):
+        rel = p.relative_to(engine.REPO).with_suffix("")
+        if "test" in rel.parts:
+            continue
+        mod = ".".join(rel.parts)
+        tree = ast.parse(p.read_text())
+        owner = {}
+        for fn in ast.walk(tree):
+            if isinstance(fn, (ast.FunctionDef, ast.AsyncFunctionDef)):
+                for n in ast.walk(fn):
+                    owner.setdefault(id(n), fn.name) if n is not fn else None
+        for node in ast.walk(tree):
+            if isinstance(node, ast.ExceptHandler):
+                if node.type is None:
+                    caught = [""]
+                elif isinstance(node.type, ast.Tuple):
+                    caught = [ast.unparse(e).split(".")[-1] for e in node.type.elts]
+                else:
+                    caught = [ast.unparse(node.type).split(".")[-1]]
+                rows.append((mod, owner.get(id(node), "<module>"), "except", caught, _always_raises(node.body)))
+            elif isinstance(node, ast.Call):
+                name = ast.unparse(node.func).split(".")[-1]
+                if name == "suppress":
+                    rows.append((mod, owner.get(id(node), "<module>"), "suppress",
+                                 [ast.unparse(a).split(".")[-1] for a in node.args], False))
+                elif name in ("errstate", "seterr"):
+                    rows.append((mod, owner.get(id(node), "<module>"), name,
+                                 [f"{k.arg}={ast.unparse(k.value)}" for k in node.keywords], False))
+    body = ",\n".join(
+        f"  {{ module := {lean_str(m)}, func := {lean_str(f)}, kind := {lean_str(k)}, caught := {_ls(c)}, "
+        f"reraises := {'true' if r else 'false'} }}" for m, f, k, c, r in rows)
+    txt = ["namespace Iodata.Gen.Handlers", "",
+           "structure Handler where", "  module : String", "  func : String", "  kind : String",
+           "  caught : List String", "  reraises : Bool", "  deriving Repr, DecidableEq", "",
+           "def handlers : List Handler := [", body, "]", "", "end Iodata.Gen.Handlers", ""]
+    ctx.gen_write("Handlers", "\n".join(txt))
 
 
 # =====================================================================================================
